@@ -341,8 +341,11 @@ pub fn replay(case: &Value) -> String {
     log
 }
 
-pub fn report(ctx: &Ctx, vs: Vec<(String, String)>, lg_k: u8, pairs: &[u32]) {
+pub fn report(ctx: &Ctx, vs: Vec<(String, String)>, lg_k: u8, pairs: &[u32]) -> bool {
+    let mut new = false;
     for (k, w) in vs {
-        ctx.violation(&k, &format!("lg_k={lg_k}: {w}"), replay_json(lg_k, pairs));
+        new |= k.starts_with("panic|");
+        new |= ctx.violation(&k, &format!("lg_k={lg_k}: {w}"), replay_json(lg_k, pairs));
     }
+    new
 }
